@@ -387,6 +387,44 @@ func c12Exec(w *c12World, r c12Run) (sig, what string) {
 	if rw != nil && (rw.committed != 1 || len(rw.reserved) != 1) {
 		return "unexplained:logger-reserve-commit", fmt.Sprintf("Reserve called %v times, Commit %d times, want once each | %s", rw.reserved, rw.committed, desc())
 	}
+	// life after RunUntil: a second call on the same System (towards the end of the program, fresh budget)
+	// must again behave like the hand-stepped loop continued from where the first one stopped
+	target2, budget2 := r.Start+uint32(len(code)), uint64(24)
+	consumed, steps = 0, 0
+	for consumed < budget2 && w.twin.GetPC() != target2 {
+		n, _ := w.twin.CPU.Step()
+		if n < 1 {
+			return "", ""
+		}
+		consumed += uint64(n)
+		if steps++; steps > int(budget2)+2 {
+			break
+		}
+	}
+	calls, guard = 0, int(budget2)+3
+	sutPre = sutPre[:0]
+	c12WatchMu.Lock()
+	w.busy, w.started = &r, time.Now()
+	c12WatchMu.Unlock()
+	func() {
+		defer func() { pn = recover() }()
+		got = w.sut.RunUntil(target2, budget2)
+	}()
+	c12WatchMu.Lock()
+	w.busy = nil
+	c12WatchMu.Unlock()
+	if pn != nil {
+		return "unexplained:second-rununtil", fmt.Sprintf("a second RunUntil($%06x, %d) on the same System panicked or did not stop: %v | first call: %s", target2, budget2, pn, desc())
+	}
+	if a, b := c12Snapshot(w.sut), c12Snapshot(w.twin); a != b || got != (w.twin.GetPC() == target2) {
+		return "unexplained:second-rununtil", fmt.Sprintf("after a second RunUntil($%06x, %d) on the same System: result %v state %v, the hand-stepped loop gives result %v state %v | first call: %s", target2, budget2, got, a, w.twin.GetPC() == target2, b, desc())
+	}
+	if !bytes.Equal(w.sut.WRAM[:], w.twin.WRAM[:]) || !bytes.Equal(w.sut.SRAM[:], w.twin.SRAM[:]) || !bytes.Equal(w.sut.ROM[:0x10000], w.twin.ROM[:0x10000]) {
+		return "unexplained:second-rununtil", "after a second RunUntil on the same System memory differs from the hand-stepped loop | first call: " + desc()
+	}
+	if rw != nil && (rw.committed != 2 || len(rw.reserved) != 2) {
+		return "unexplained:logger-reserve-commit", fmt.Sprintf("after two RunUntil calls Reserve was called %v times, Commit %d times, want twice each | %s", rw.reserved, rw.committed, desc())
+	}
 	return "", ""
 }
 
@@ -544,7 +582,7 @@ func runC12(r *report.Run) {
 			r.Sample(cs)
 		}
 	}
-	r.Set("rule", "Step part: every case of the five sweeps (E, pending interrupts, Stopped before/after) on both interpreters: cycles >= 1, AllCycles grows by exactly the reported count, stop status as specified, OnWDM receives exactly the operand (all 256); sequences: the same along every program of the search incl. steps after STP and Reset. RunUntil part: every program up to depth 3 over a 16-instruction alphabet (loops, STP, block move, calls) x 2 placements x every instruction boundary / inside-operand / unreachable target x the budget alphabet on a real emulator.System, compared with a twin System stepped by hand (final CPU state, memory, result) with program-counter callbacks on every program byte (exactly once per fetch, pre-instruction state) that double as a non-termination guard")
+	r.Set("rule", "Step part: every case of the five sweeps (E, pending interrupts, Stopped before/after) on both interpreters: cycles >= 1, AllCycles grows by exactly the reported count, stop status as specified, OnWDM receives exactly the operand (all 256); sequences: the same along every program of the search incl. steps after STP and Reset. RunUntil part: every program up to depth 3 over a 16-instruction alphabet (loops, STP, block move, calls) x 2 placements x every instruction boundary / inside-operand / unreachable target x the budget alphabet on a real emulator.System, compared with a twin System stepped by hand (final CPU state, memory, result; then a second RunUntil call on the same System towards the end of the program, compared again) with program-counter callbacks on every program byte (exactly once per fetch, pre-instruction state) that double as a non-termination guard")
 	r.Sample(c12Run{Prog: []string{"LDA #$1234", "BRA -2"}, Start: 0x7E2000, Target: 0x7E2003, Budget: 13})
 	r.Sample(c12Run{Prog: []string{"STP", "NOP"}, Start: 0x008000, Target: 0x008001, Budget: 50})
 	r.Assume("the twin is a second real System stepped by hand: the loop logic of RunUntil is judged, the Step semantics are judged by C01/C02")
